@@ -34,7 +34,9 @@ theorem FlagsOk.of_eq {f f' : Forest} (h : FlagsOk f) (h1 : f'.consolidation = f
 /-! ### One call -/
 
 theorem anyAppend_normal (f : Forest) (p c : Nat) (t : HTree) (hg : f.get? c = some t)
-    (hn : t.value.isNormal = true) : f.anyAppend p c = ((f.append p c).1, (f.append p c).2, c) := by
+    (hn : t.value.isNormal = true) :
+    f.anyAppend p c = ((f.append p c).1, (f.append p c).2,
+      Forest.anyAppendRet (f.append p c).1 (f.append p c).2 p c) := by
   have hv : f.value? c = some t.value := by simp [Forest.value?, hg]
   unfold Forest.anyAppend
   rw [hv]
@@ -136,7 +138,8 @@ theorem call_impl_spec {f : Forest} (inv : f.Inv) (hfl : FlagsOk f) (c : Call) (
     | none =>
       exfalso
       have hv : f.value? c = none := by simp [Forest.value?, hg]
-      have : f.anyAppend p c = ((f.append p c).1, (f.append p c).2, c) := by
+      have : f.anyAppend p c = ((f.append p c).1, (f.append p c).2,
+          Forest.anyAppendRet (f.append p c).1 (f.append p c).2 p c) := by
         unfold Forest.anyAppend; rw [hv]
       rw [this] at h2
       exact append_dead f p c hg h2
